@@ -331,7 +331,10 @@ def spec_graph(routines: list[list[Any]]) -> tuple[Graph, list[Node]]:
             opn = {"actor": "lives", "object": "object", "performer": "performer"}[s.kind]
             if isinstance(s.stmt, Label):
                 raise SpecError("label in with")
-            inner = one(s.stmt, nxt, cx)
+            if isinstance(s.stmt, Ctl) and s.stmt.kind in FLOW_END:
+                inner = g.mk(FLOW_END[s.stmt.kind], "op", nxt=nxt)  # ends the script of the actor; the routine goes on
+            else:
+                inner = one(s.stmt, nxt, cx)
             return g.mk(f"{opn}[7]", "op", nxt=inner)
         raise AnalysisError(f"skeleton statement {s!r}")
 
@@ -509,8 +512,16 @@ class AbstractCompiler:
         return rem.attrs["routines"]
 
 
+CTX_OPS = ("lives", "object", "performer")  # the op after one of these runs in the context of that actor / object / performer
+
+
 def compiled_graph(I: Interp, routines: list[list[AObj]], branch_ops: set[str], end_ops: set[str], jump_name: str = "Jump") -> tuple[Graph, list[Node]]:
-    """Flow graph of compiled op lists on the SSB machine model."""
+    """Flow graph of compiled op lists on the SSB machine model.  A flow-ending op that directly follows a context op (`with (actor X) { end; }`)
+    ends the script of that actor, not the routine: the routine goes on with the next op (language_spec: a with-block "runs a statement in the
+    context of an actor"; compiler and decompiler agree, see does_op_end_control_flow)."""
+    consts = I.fold.const("explorerscript.ssb_converting.ssb_special_ops:OPS_CTX")
+    if tuple(consts) != CTX_OPS:
+        raise AnalysisError(f"OPS_CTX of the repository is {consts!r}; the machine model of /verif knows {CTX_OPS!r}")
     g = Graph()
     by_off: dict[int, Node] = {}
     flat: list[tuple[int, AObj, int]] = []
@@ -553,6 +564,8 @@ def compiled_graph(I: Interp, routines: list[list[AObj]], branch_ops: set[str], 
                 lab = None
             real = g.mk(lab or "Call", "test", t=by_off[tgt], f=nxt)
             n.nxt = real
+        elif name in end_ops and idx > 0 and flat[idx - 1][0] == ri and flat[idx - 1][1].attrs["op_code"].attrs["name"] in CTX_OPS:
+            n.nxt = g.mk(name, "op", nxt=nxt)
         elif name in end_ops:
             if name == "Return":
                 n.nxt = g.stop
